@@ -208,6 +208,26 @@ def r8_1(ctx, R):
             gen = [k for k in insts if ctx.facts.type_mentions(k, lambda x, c: x["k"] == "param" and x["name"] not in ctx.facts.adts[p]["generics"])]
             ctx.ob("R8.1", p, "dequeue-result-enum-never-over-a-child", not gen, "", "instantiations %s" % insts)
             continue
+        # a private type that nothing stores (no struct / enum field, not reachable from outside) and that is only ever
+        # instantiated over non-child types -- the verdict enum of an inlined helper: `Fill<St::Err>`, `Step<F::Err>`,
+        # `Woken<S::Item>` -- holds no child
+        adt_ = ctx.facts.adts[p]
+        stored_ = adt_.get("effective_pub") or any(
+            re.search(r"(^|[<( ,\[])%s($|[<>,) \]])" % re.escape(p), g["ty"])
+            for q, other in ctx.facts.adts.items() if q != p for w in other["variants"] for g in w["fields"])
+        if not stored_:
+            insts = [k for k in ctx.facts.types if k.startswith(p + "<")]
+            own_gen = set(adt_["generics"])
+            child_inst = []
+            for k in insts:
+                t_ = ctx.facts.types.get(k)
+                for a_ in (t_["args"] if t_ and t_["k"] == "adt" else []):
+                    ta_ = ctx.facts.types.get(a_) if isinstance(a_, str) else None
+                    if ta_ is not None and ta_["k"] == "param" and ta_["name"] not in own_gen and not ta_["name"].startswith("'"):
+                        child_inst.append(k)
+            if insts:
+                ctx.ob("R8.1", p, "transient-type-never-over-a-child", not child_inst, "", "instantiations %s" % insts[:4])
+                continue
         why = []
         okh = True
         if p == R.slot_enum[0]:
